@@ -21,13 +21,14 @@ func FindGitRepo(dirs ...string) (string, error) {
 
 	var commonRepoPath string
 
-	for _, dir := range dirs {
+	for i, dir := range dirs {
 		repoPath, err := findRepoPath(dir)
 		if err != nil {
 			return "", err
 		}
 
-		if commonRepoPath == "" {
+		// a directory outside of any repository ("") is different from one inside
+		if i == 0 {
 			commonRepoPath = repoPath
 		} else if repoPath != commonRepoPath {
 			return "", errors.New("directories belong to different Git repositories")
